@@ -51,9 +51,9 @@ MODE_CODE = {"plain": 0, "plain-unsigned": 0, "unsigned-trailer": 1, "signed": 3
 CORRUPTIONS = {
     "plain": ["none", "none", "flip-body", "wrong-sha256", "wrong-md5", "wrong-cksum"],
     "plain-unsigned": ["none", "flip-body-md5", "wrong-md5", "wrong-cksum", "flip-body-cksum"],
-    "unsigned-trailer": ["none", "none", "flip-data", "wrong-trailer", "truncate", "extra-chunk", "declared-more", "declared-less", "wrong-md5", "wrong-cksum"],
-    "signed": ["none", "none", "flip-data", "wrong-chunk-sig", "truncate", "extra-chunk", "declared-more", "declared-less", "wrong-md5", "wrong-cksum", "drop-final"],
-    "signed-trailer": ["none", "none", "flip-data", "wrong-chunk-sig", "wrong-trailer", "wrong-trailer-sig", "truncate", "declared-more", "declared-less"],
+    "unsigned-trailer": ["none", "none", "flip-data", "wrong-trailer", "truncate", "truncate-at-data-end", "extra-chunk", "declared-more", "declared-less", "wrong-md5", "wrong-cksum"],
+    "signed": ["none", "none", "flip-data", "wrong-chunk-sig", "truncate", "truncate-at-data-end", "extra-chunk", "declared-more", "declared-less", "wrong-md5", "wrong-cksum", "drop-final"],
+    "signed-trailer": ["none", "none", "flip-data", "wrong-chunk-sig", "wrong-trailer", "wrong-trailer-sig", "truncate", "truncate-at-data-end", "declared-more", "declared-less"],
 }
 
 
@@ -78,7 +78,7 @@ def run(chk):
     chk.rule = ("a case is one PutObject or UploadPart in one payload encoding (plain with payload hash, plain UNSIGNED-PAYLOAD, "
                 "unsigned aws-chunked with CRC trailer, signed aws-chunked, signed with trailer) with optional Content-MD5 and one "
                 "x-amz-checksum-* header (all five algorithms), bodies of 0..100000 bytes, and one corruption (flipped data byte, wrong "
-                "declared digest / chunk signature / trailer checksum / trailer signature, truncation after a chunk, extra chunk, declared "
+                "declared digest / chunk signature / trailer checksum / trailer signature, truncation after a chunk and at the last data byte, extra chunk, declared "
                 "decoded length larger or smaller) or none, on a key that is absent or holds old content with its own content type and user metadata (the state compared is bytes, ETag, content type and user metadata together), in the xattr and the sidecar metadata store; non-trivial when >= 2 chunks or "
                 "a corruption is present; distinct by content.")
     gwbin = gobuild.build_gateway("verif")
@@ -112,7 +112,7 @@ def run(chk):
             r0 = cl.req("PUT", "/bk1")
             chk.require(r0.status == 200, "c06:setup:create-bucket", "CreateBucket answered %s" % r0)
             for idx, (mode, cor, size, part) in enumerate(pl, start=base):
-                if size == 0 and (cor.startswith("flip") or cor in ("declared-less", "truncate")):
+                if size == 0 and (cor.startswith("flip") or cor in ("declared-less", "truncate", "truncate-at-data-end")):
                     cor = "none"          # nothing to corrupt in an empty payload
                 c = build_case(rnd, mode, cor, size)
                 cor = c["corruption"]
@@ -186,6 +186,10 @@ def run(chk):
                         elif cor == "truncate":
                             cutat = b.index(b"\r\n", b.index(b"\r\n") + 2) + 2 if send_chunks else max(len(b) - 3, 0)
                             bb = bb[:cutat]
+                        elif cor == "truncate-at-data-end":
+                            # the body ends with the last data byte of the last chunk: no CRLF, no final chunk, no trailer
+                            mark = b"\r\n0\r\n" if mode == "unsigned-trailer" else b"\r\n0;chunk-signature="
+                            bb = bb[:b.rindex(mark)] if send_chunks and mark in b else bb[:max(len(b) - 3, 0)]
                         elif cor == "drop-final":
                             bb = bb[:b.rindex(b"0;chunk-signature=")]
                         return bytes(bb)
